@@ -97,7 +97,11 @@ CHECKS = {
          "profile and error item are well-formed printable styled text at every width given that the stored fields are (they come "
          "from the sanitising accessors, from Name() of related items and from the markup renderers above); tie: posts/profiles "
          "built by the real constructors from hostile JSON, Name/String/Preview equal the Pub model run on the dumped fields, and "
-         "every Tangible's texts (activities, collections, links, failures too) pass safe_b.",
+         "every Tangible's texts (activities, collections, links, failures too) pass safe_b. Activities: activity_string/preview_good. "
+         "WHOLE FRAMES: view_good, every_frame_good, and the composition pub_frames_good (the UI over pub's own items whose stored "
+         "fields are good: every frame of every history is computed, terminal-high, safe and neutral); tie: the frames of the real "
+         "ui.State equal Ui.last_frame (C07/C16). References whose fetch error quotes hostile bytes (hosts with C1 controls) are "
+         "placed wherever an item shows such an error.",
     note="Parsers (x/net/html, goldmark) are library oracles: the theorem quantifies over every tree. Error message texts, "
          "ago(published), url.String() and a.id.Host are library/clock-produced inputs of the item model. Colours must satisfy "
          "colors_ok, which C19's colour_is_param proves for every accepted configuration.",
@@ -111,8 +115,13 @@ CHECKS = {
          "link list, and that the numbers shown are exactly 1..N. ITEM LEVEL (Pub.v): post_supplement_spec (one link block per "
          "attachment, the j-th numbered body-links + j), att_events_numbers, post_select_body/attachment/outside/inside, "
          "actor_select, link_select_uri/none; tie: Post/Actor String, SelectLink for numbers -1..11 and Media equal the Pub model "
-         "on posts/profiles built by the real constructors.",
-    note="ls_events / post_events are ghost components of the model (erased in the observable result).",
+         "on posts/profiles built by the real constructors. WHICH LINK (Links.v): all_links_spec, attachment_opens_json_link (the "
+         "number next to the j-th attachment selects the link built from the j-th element of the JSON list), select_best_in / "
+         "optimal / first_of_ties (media of audio/video/image posts, profile picture, banner); tie: the link fields the constructors "
+         "stored equal Links.v run on the JSON (oracle links_equal_model), over candidates with matching / other / missing / "
+         "malformed media types and sizes.",
+    note="ls_events / post_events are ghost components of the model (erased in the observable result). The string shorthand for links "
+         "never works on this tree (modelled as it is; DESIGN, other observations).",
     technique="Coq proof (ghost label events + structural induction over the tree) + label-parsing oracle on implementation output",
     design="5/C12"),
  "C15": dict(
